@@ -142,8 +142,8 @@ def run(ctx):
         elif "ok" not in m or json.dumps(fr.dec_obj(m["ok"])) != json.dumps(okr[1]):
             ctx.disagree("config.from_dict", rq, m, okr[1])
     # histories -> get -> load (model vs code, step by step) + reload oracle
-    n = 120 if ctx.tier == "quick" else 2500
-    n_bytes = 14 if ctx.tier == "quick" else 200
+    n = 300 if ctx.tier == "quick" else 2500
+    n_bytes = 30 if ctx.tier == "quick" else 200
     for i in range(n):
         if ctx.left() < 25:
             break
